@@ -382,3 +382,66 @@ pub open spec fn proof_verify_api_spec<CS: BbsCiphersuite>(pk: G2Projective, p: 
     proof_verify_spec::<CS>(pk, p, p1_spec::<CS>(), generators_spec::<CS>((p.m_cap@.len() + di.len() + 1) as nat, CS::API_ID@), header, ph,
         msgs_to_scalars_spec::<CS>(dmsgs, CS::API_ID@), di, CS::API_ID@)
 }
+
+// ==== Blind BBS (draft-irtf-cfrg-bbs-blind-signatures-01, with the Grotto deviations the code documents) ====
+/// blind generators: create_generators(n, "BLIND_" || api_id)
+pub open spec fn blind_api(api_id: Seq<u8>) -> Seq<u8> {
+    Seq::<u8>::empty().push(66u8).push(76u8).push(73u8).push(78u8).push(68u8).push(95u8) + api_id
+}
+
+/// Cbar recomputed by the verifier: Q2 * s^ + sum J_i * m^_i + C * (-c)
+pub open spec fn commit_cbar_v(c: G1Projective, p: BBSplusZKPoK, gens: Seq<G1Projective>) -> G1Projective {
+    let m = p.m_cap@.len() as int;
+    g1_add(b_fold(g1_mul(gens[0], p.s_cap), gens.subrange(1, m + 1), p.m_cap@, m), g1_mul(c, s_neg(p.challenge)))
+}
+
+/// CoreCommitVerify predicate over the first M + 1 of the supplied blind generators
+pub open spec fn commit_verify_spec<CS: BbsCiphersuite>(c: G1Projective, p: BBSplusZKPoK, gens: Seq<G1Projective>, api_id: Seq<u8>) -> bool {
+    let m = p.m_cap@.len() as int;
+    &&& gens.len() >= m + 1
+    &&& (api_id + CS::H2S@).len() <= 255
+    &&& p.challenge == blind_challenge_spec::<CS>(c, commit_cbar_v(c, p, gens.subrange(0, m + 1)), gens.subrange(0, m + 1), api_id)
+}
+
+/// CoreCommit as a function of the random scalars rs = (secret_prover_blind, s~, m~_1..m~_M)
+pub open spec fn commit_c(gens: Seq<G1Projective>, cm: Seq<Scalar>, rs: Seq<Scalar>) -> G1Projective {
+    b_fold(g1_mul(gens[0], rs[0]), gens.subrange(1, cm.len() as int + 1), cm, cm.len() as int)
+}
+pub open spec fn commit_cbar(gens: Seq<G1Projective>, cm: Seq<Scalar>, rs: Seq<Scalar>) -> G1Projective {
+    b_fold(g1_mul(gens[0], rs[1]), gens.subrange(1, cm.len() as int + 1), rs.subrange(2, cm.len() as int + 2), cm.len() as int)
+}
+pub open spec fn core_commit_rel<CS: BbsCiphersuite>(out: BBSplusCommitment, blind: Scalar, gens: Seq<G1Projective>, cm: Seq<Scalar>, api_id: Seq<u8>, rs: Seq<Scalar>) -> bool {
+    let c = blind_challenge_spec::<CS>(commit_c(gens, cm, rs), commit_cbar(gens, cm, rs), gens, api_id);
+    &&& blind == rs[0]
+    &&& out.commitment == commit_c(gens, cm, rs)
+    &&& out.proof.challenge == c
+    &&& out.proof.s_cap == s_add(rs[1], s_mul(rs[0], c))
+    &&& out.proof.m_cap@.len() == cm.len()
+    &&& forall|j: int| 0 <= j < cm.len() ==> (#[trigger] out.proof.m_cap@[j]) == s_add(rs[2 + j], s_mul(cm[j], c))
+}
+
+/// B_calculate: P1 + sum H_i * m_i + commitment
+pub open spec fn calculate_b_spec(p1: G1Projective, h: Seq<G1Projective>, m: Seq<Scalar>, commitment: G1Projective) -> G1Projective {
+    g1_add(b_fold(p1, h, m, m.len() as int), commitment)
+}
+
+/// FinalizeBlindSign: domain over (H_1..H_L, Q2, J_1..J_{n-2});  B' = B + Q1 * domain;  e = h2s(SK || B');  A = B'/(SK + e)
+pub open spec fn fbs_gens(gens: Seq<G1Projective>, bgens: Seq<G1Projective>) -> Seq<G1Projective> {
+    gens.subrange(1, gens.len() as int) + seq![bgens[0]] + (if bgens.len() >= 2 { bgens.subrange(1, bgens.len() - 1) } else { Seq::empty() })
+}
+pub open spec fn fbs_b<CS: BbsCiphersuite>(pk: G2Projective, b: G1Projective, gens: Seq<G1Projective>, bgens: Seq<G1Projective>, header: Seq<u8>, api_id: Seq<u8>) -> G1Projective {
+    g1_add(b, g1_mul(gens[0], domain_spec::<CS>(pk, gens[0], fbs_gens(gens, bgens), header, api_id)))
+}
+pub open spec fn fbs_e<CS: BbsCiphersuite>(sk: Scalar, bp: G1Projective, api_id: Seq<u8>) -> Scalar {
+    h2s_spec::<CS>(sc_enc(sk) + g1_enc(bp), api_id + CS::H2S@)
+}
+
+pub open spec fn opt_cm(o: Option<Vec<BBSplusMessage>>) -> Seq<BBSplusMessage> {
+    match o { Some(v) => v@, None => Seq::empty() }
+}
+
+/// commit fails only when a DST exceeds 255 octets (never for the real api ids)
+pub open spec fn commit_ok<CS: BbsCiphersuite>(m: int, api_id: Seq<u8>) -> bool {
+    &&& (m == 0 || (api_id + CS::MAP_MSG_SCALAR@).len() <= 255)
+    &&& (api_id + CS::H2S@).len() <= 255
+}
